@@ -230,7 +230,7 @@ class G:
             return ["sel", self.pred(cols, 2)], cols
         if k == "slice":
             a = rng.choice([0, 0, 0, 1, 1, 2, 3])
-            b = rng.choice([None, None, a, a + 1, a + 2, a + 3, 4])
+            b = rng.choice([None, None, a, a + 1, a + 2, a + 3, 4, 0])
             if b is not None and b < a:
                 b = a
             return ["slice", a if (a or rng.random() < 0.5) else "-", "-" if b is None else b, "-"], cols
@@ -718,7 +718,26 @@ def prog_multi(seed: int, n_ops: int = 8, *, three: float = 0.3, prefs: float = 
             if g.cols[m]:
                 op2, nc2 = g.rand_op(g.cols[m], allow=("proj", "sel"))
                 observed.append(g.apply(m, op2, nc2))
-    elif sc < 0.3:
+    elif sc < 0.27:
+        # scenario: transfer round trips with a (locked) materialization in between
+        src = g.pick()
+        others = [e for e in engines if e != g.eng[src]]
+        mid = rng.choice(others)
+        cur = g.transfer(src, mid)
+        if rng.random() < 0.4 and g.cols[cur]:
+            op, nc = g.rand_op(g.cols[cur], allow=("sel", "calc", "proj"))
+            cur = g.apply(cur, op, nc)
+        m = g.mat(cur)
+        hop = m
+        if len(engines) > 2 and rng.random() < 0.5:
+            third = rng.choice([e for e in engines if e not in (mid,)])
+            hop = g.transfer(m, third)
+        back = g.transfer(hop, g.eng[src])
+        observed += [m, back]
+        if g.cols[back]:
+            op, nc = g.rand_op(g.cols[back], allow=("sel", "proj", "calc"))
+            observed.append(g.apply(back, op, nc, g.opts(rng.choice(engines), rng.random() < 0.7, rng.random() < 0.5, False)))
+    elif sc < 0.42:
         # scenario: operations downstream of a transfer, then a projection onto the columns of an
         # ancestor, preferred in the source engine
         src = g.pick()
@@ -1043,8 +1062,20 @@ def prog_conform(seed: int, n_ops: int = 7) -> G:
             g.leaves_of[r] = g.leaves_of[t] | g.leaves_of[u]
             g.has_chain.add(r)
             raws.append(r)
-        elif k < 0.82:
+        elif k < 0.85:
             t = rng.choice(raws)
+            if rng.random() < 0.35:
+                # a zero-length or ordinary slice directly under the join
+                a = rng.choice([0, 0, 1])
+                r0 = g.fresh()
+                g.emit(["rawu", r0, ["slice", a, rng.choice([a, a, a + 1, 0 if a == 0 else a]), "-"], t])
+                g.cols[r0] = g.cols[t]
+                g.eng[r0] = "e0"
+                g.leaves_of[r0] = g.leaves_of[t]
+                if t in g.has_chain:
+                    g.has_chain.add(r0)
+                raws.append(r0)
+                t = r0
             cands = [u for u in raws if not (g.cols[u] & g.cols[t] & NONKEY) and not (g.leaves_of[u] & g.leaves_of[t])]
             if not cands:
                 continue
@@ -1066,7 +1097,7 @@ def prog_conform(seed: int, n_ops: int = 7) -> G:
         c = "c" + r[1:]
         g.emit(["conform", c, r])
         g.emit(["sqlexec", c])
-        g.emit(["sem", r])
+        g.emit(["sem", c])
         if rng.random() < 0.3:
             g.emit(["conform", "d" + r[1:], c])
     return g
